@@ -114,7 +114,16 @@ class GenericModelCodeGenerator:
 
     @cached_method
     def convert_class_name(self, name):
-        return prepare_label(name, convert_unicode=self.convert_unicode, to_snake_case=False)
+        label = prepare_label(name, convert_unicode=self.convert_unicode, to_snake_case=False)
+        # Class name starts with an upper-case letter even if the original key does not start with a letter
+        # (i.e. "@context", "$ref", "2020"): otherwise it is equal to the name of the field of that key
+        # and in nested structure the field overrides the class
+        stripped = label.lstrip('_')
+        if stripped and stripped[0].upper() != stripped[0]:
+            label = stripped[0].upper() + stripped[1:]
+            if label in blacklist_words:
+                label += "_"
+        return label
 
     @cached_method
     def convert_field_name(self, name):
